@@ -740,13 +740,32 @@ func runC11(c *Ctx) {
 		// text argument: a parameter of the method or strings.Join of its variadic parameter
 		txt := cs.Common().Args[0]
 		okTxt := false
-		if _, ok := txt.(*ssa.Parameter); ok {
-			okTxt = true
+		isText := func(v ssa.Value) bool {
+			if _, ok := v.(*ssa.Parameter); ok {
+				return true
+			}
+			if call, ok := v.(*ssa.Call); ok && calleeName(&call.Call) == "strings.Join" {
+				if _, ok := call.Call.Args[0].(*ssa.Parameter); ok {
+					if s, ok := constString(call.Call.Args[1]); ok && s == " " {
+						return true
+					}
+				}
+			}
+			return false
 		}
-		if call, ok := txt.(*ssa.Call); ok && calleeName(&call.Call) == "strings.Join" {
-			if _, ok := call.Call.Args[0].(*ssa.Parameter); ok {
-				if s, ok := constString(call.Call.Args[1]); ok && s == " " {
-					okTxt = true
+		okTxt = isText(txt)
+		if pr, ok := txt.(*ssa.Parameter); ok && fn.Object() != nil && !fn.Object().Exported() {
+			// an unexported helper shared by the senders: each of them hands over its own text
+			for i, q := range fn.Params {
+				if q != pr {
+					continue
+				}
+				sites := c.staticCallers(fn)
+				okTxt = len(sites) > 0
+				for _, s2 := range sites {
+					if i >= len(s2.Common().Args) || !isText(s2.Common().Args[i]) {
+						okTxt = false
+					}
 				}
 			}
 		}
@@ -783,7 +802,7 @@ func runC11(c *Ctx) {
 		}
 		r.Add("R6", "one-line-per-piece:"+c.FuncKey(fn), c.InstrPos(cs), c.FuncKey(fn), "exactly one line is sent for each piece", okRaw, why)
 	}
-	r.Floor("R6", "call sites of the splitter", n6, 2)
+	r.Floor("R6", "call sites of the splitter", n6, 1)
 	// the formatting variants must hand formatted TEXT to the non-formatting sender
 	c.formatHygieneRule("R6")
 	c.enqueueIdentityRule("R7")
@@ -817,6 +836,43 @@ func (c *Ctx) dependsOn(v, target ssa.Value, depth int) bool {
 		}
 	case *ssa.ChangeType:
 		return c.dependsOn(t.X, target, depth+1)
+	case *ssa.Call:
+		// a module function (also one reached through a function-typed parameter) whose every result contains
+		// the parameter the target is passed as
+		if _, isB := t.Call.Value.(*ssa.Builtin); isB || t.Call.IsInvoke() {
+			return false
+		}
+		edges := c.Callees(t)
+		if len(edges) == 0 {
+			return false
+		}
+		for _, e := range edges {
+			if e.Callee == nil || !c.InModuleFn(e.Callee) {
+				return false
+			}
+			okCallee := false
+			for i, arg := range t.Call.Args {
+				if i >= len(e.Callee.Params) || !c.dependsOn(arg, target, depth+1) {
+					continue
+				}
+				all, n := true, 0
+				funcInstrs(e.Callee, func(in ssa.Instruction) {
+					if rt, ok := in.(*ssa.Return); ok && len(rt.Results) == 1 {
+						n++
+						if !c.dependsOn(retVal(rt, 0), e.Callee.Params[i], depth+1) {
+							all = false
+						}
+					}
+				})
+				if all && n > 0 {
+					okCallee = true
+				}
+			}
+			if !okCallee {
+				return false
+			}
+		}
+		return true
 	}
 	return false
 }
